@@ -20,5 +20,5 @@ if [ -f $d/demo.py ]; then
 fi
 if [ $tests = 1 ]; then ( cd $wt && PYTHONPATH=$wt/src /venv/bin/python -m pytest -q -p no:cacheprovider test 2>&1 | tail -1 ); fi
 for p in $props; do
-  ( cd $VH && SPECTRUM_REPO=$wt ./check $p --tier $tier > $wt/check.log 2>&1; echo "check $p exit $?"; grep -v "^Traceback\|^  File\|^    " $wt/check.log | tail -3 )
+  ( cd $VH && VERIF_EVIDENCE_DIR=$wt/evidence SPECTRUM_REPO=$wt ./check $p --tier $tier > $wt/check.log 2>&1; echo "check $p exit $?"; grep -v "^Traceback\|^  File\|^    " $wt/check.log | tail -3 )
 done
